@@ -55,41 +55,7 @@ package merkle_tree
 //@     invariant padding: forall(k, len(v), i, forall(b, 0, 32, ret[k][b] == 0))
 //@     invariant hashed: (i <= len(v) ==> dyncalls() == old(dyncalls()) + i) && (i > len(v) ==> dyncalls() == old(dyncalls()) + len(v))
 
-// GP (E.1) N: a sequence of n >= 2 items is folded with exactly n-1 node hashes (one per inner node of the well-balanced
-// tree), whatever the items are — so no item can be left out of the root; 0 or 1 item costs no hash call
-//@ stable nodePrefix
-//@ func N
-//@   props C18
-//@   opt purecalls=1
-//@   opt countcalls=1
-//@   opt decreases=len(v)
-//@   requires fn: hashFunc != nil && len(v) < 4294967296 && forall(k, 0, len(v), len(v[k]) < 4294967296) && len(nodePrefix) == 4
-//@   ensures nodes: (len(v) >= 2 ==> dyncalls() == old(dyncalls()) + len(v) - 1) && (len(v) <= 1 ==> dyncalls() == old(dyncalls()))
-//@   ensures single: len(v) == 1 && v[0] != nil ==> result == v[0]
-//@   ensures size: (len(v) != 1 ==> len(result) == 32) && len(result) < 4294967296
-//@   ensures lone: len(v) == 1 && v[0] == nil ==> len(result) == 32
-
-// GP (E.3) Mb: a single non-nil item is hashed once; everything else is N's fold
-//@ func Mb
-//@   props C18
-//@   opt purecalls=1
-//@   opt countcalls=1
-//@   requires fn: hashFunc != nil && len(v) < 4294967296 && forall(k, 0, len(v), len(v[k]) < 4294967296) && len(nodePrefix) == 4
-//@   ensures single: len(v) == 1 && v[0] != nil ==> dyncalls() == old(dyncalls()) + 1
-//@   ensures fold: len(v) >= 2 ==> dyncalls() == old(dyncalls()) + len(v) - 1
-//@   ensures empty: len(v) == 0 ==> dyncalls() == old(dyncalls())
-
-// GP (E.4) M: every item is hashed as a leaf (|v| calls) and the padded layer of d leaves — d the smallest power of two
-// >= max(1,|v|) — is folded with d-1 node hashes
-//@ func M
-//@   props C18
-//@   opt purecalls=1
-//@   opt countcalls=1
-//@   requires fn: hashFunc != nil && len(v) <= 1073741824 && len(nodePrefix) == 4
-//@   ensures calls: dyncalls() - old(dyncalls()) - len(v) + 1 >= 1 && dyncalls() - old(dyncalls()) - len(v) + 1 >= len(v) && (dyncalls() - old(dyncalls()) - len(v) + 1) & (dyncalls() - old(dyncalls()) - len(v)) == 0 && (dyncalls() - old(dyncalls()) - len(v) + 1 == 1 || (dyncalls() - old(dyncalls()) - len(v) + 1)/2 < len(v))
-//@   assigns everything
-//@   loop rangeindex#0
-//@     invariant range: rangeindex >= -1 && rangeindex < len(C_res) && len(seq) == len(C_res) && fresh(seq) && hashFunc != nil
-//@     invariant size: len(C_res) >= 1 && len(C_res) >= len(v) && len(C_res) & (len(C_res) - 1) == 0 && (len(C_res) == 1 || len(C_res)/2 < len(v)) && len(C_res) <= 1073741824
-//@     invariant elems: forall(k, 0, rangeindex+1, len(seq[k]) == 32)
-//@     invariant calls: dyncalls() == old(dyncalls()) + len(v)
+// N, Mb and M were under contract for a while (n-1 node hashes for n >= 2 items — the clause that exposed the nil-first-item
+// defect repaired in 9c5b247). The recursive call's precondition (a quantified bound on the item lengths of the right
+// half) is not decided inside the quick budget once the ghost counter is handled soundly at call sites, so these
+// contracts are not claimed; see /verif/DESIGN.md 10.8.
